@@ -515,7 +515,13 @@ class ResourcePeriodicallyInterrupted(ResourceConstraint):
                         # ...otherwise make sure the task does not overlap with any of time intervals
                         task_conds.append(
                             z3.Xor(
-                                folded_start_task_i >= interval_upper_bound,
+                                # starts after the interval and ends before the
+                                # interval of the next period
+                                z3.And(
+                                    folded_start_task_i >= interval_upper_bound,
+                                    folded_start_task_i + duration
+                                    <= interval_lower_bound + self.period,
+                                ),
                                 folded_start_task_i + duration <= interval_lower_bound,
                             )
                         )
